@@ -25,21 +25,21 @@ type c18Prog struct {
 }
 
 type c18Gen struct {
-	r                 *core.Rng
-	lines             []string
-	ints              []string
-	strs              []string
-	slices            []string
-	maps              []string
-	structs           []string // instances
-	funcs             []string
-	globals           []string
-	hasType           bool
-	lits              []string
-	hasPkgs, hasNamed bool
+	r                  *core.Rng
+	lines              []string
+	ints               []string
+	strs               []string
+	slices             []string
+	maps               []string
+	structs            []string // instances
+	funcs              []string
+	globals            []string
+	hasType            bool
+	lits               []string
+	hasPkgs, hasNamed  bool
 	hasShape, hasPrint bool
 	hasTwins           bool
-	n                 int
+	n                  int
 }
 
 func (g *c18Gen) name(p string) string   { g.n++; return fmt.Sprintf("%s%d", p, g.n) }
